@@ -18,6 +18,7 @@
 package quic
 
 import (
+	"context"
 	"fmt"
 	"strings"
 	"testing"
@@ -130,25 +131,31 @@ func (r *smRig) open(id int64) bool {
 	sid := streamID(id)
 	var s *Stream
 	if sid.initiator() == c.side {
-		// what newLocalStream does (minus the trip through the conn loop)
+		// the real newLocalStream; it finishes on the conn loop (runOnLoop), which this rig plays itself
 		styp := sid.streamType()
 		if sid.num() != c.streams.localLimit[styp].opened {
 			return false
 		}
-		num, err := c.streams.localLimit[styp].open(canceledContext(), c)
-		if err != nil || num != sid.num() {
+		done := make(chan struct{})
+		var err error
+		go func() {
+			defer close(done)
+			s, err = c.newLocalStream(context.Background(), styp)
+		}()
+	pump:
+		for {
+			select {
+			case <-done:
+				break pump
+			case m := <-c.msgc:
+				if f, ok := m.(func(time.Time, *Conn)); ok {
+					f(r.now, c)
+				}
+			}
+		}
+		if err != nil || s == nil || int64(s.id) != id {
 			return false
 		}
-		s = newStream(c, newStreamID(c.side, styp, num))
-		s.outmaxbuf = c.config.maxStreamWriteBufferSize()
-		s.outwin = c.streams.peerInitialMaxStreamDataRemote[styp]
-		if styp == bidiStream {
-			s.inmaxbuf = c.config.maxStreamReadBufferSize()
-			s.inwin = c.config.maxStreamReadBufferSize()
-		}
-		s.inUnlock()
-		s.outUnlock()
-		c.streams.streams[s.id] = maybeStream{s}
 	} else {
 		if sid.num() != c.streams.remoteLimit[sid.streamType()].opened {
 			return false
@@ -178,7 +185,12 @@ func (r *smRig) open(id int64) bool {
 	default:
 		r.peerMSD[id] = 0 // peer-opened unidirectional: we never send
 	}
-	r.advMSD[id] = s.inwin
+	// what this endpoint ADVERTISED for the stream in its transport parameters (initial_max_stream_data_*
+	// are all config.maxStreamReadBufferSize()); a stream we only send on has no receive window
+	r.advMSD[id] = 0
+	if id&3 != 3 {
+		r.advMSD[id] = c.config.maxStreamReadBufferSize()
+	}
 	return true
 }
 
@@ -835,6 +847,9 @@ func (r *smRig) oracleState(o smOut, op string) {
 		for _, id := range r.ids {
 			s := r.streams[id]
 			total += s.outmaxsent
+			if !s.IsWriteOnly() && s.inwin != r.advMSD[id] {
+				o.Fail("", fmt.Sprintf("%s: stream %d enforces receive window inwin=%d, the limit advertised to the peer (transport parameter / last MAX_STREAM_DATA) is %d", op, id, s.inwin, r.advMSD[id]))
+			}
 			if s.outwin > r.peerMSD[id] {
 				o.Fail("", fmt.Sprintf("%s: stream %d send window outwin=%d exceeds the largest limit the peer granted for it (%d: transport parameter by stream type/initiator, or MAX_STREAM_DATA)", op, id, s.outwin, r.peerMSD[id]))
 			}
@@ -1067,7 +1082,7 @@ func smPickRecv(r *vu.Rng, rig *smRig, s *Stream, bad bool) (int64, int, bool) {
 	id := int64(s.id)
 	high := rig.inHigh[id]
 	final := rig.inFinal[id]
-	win := s.inwin
+	win := rig.advMSD[id] // the advertised limit, not the window the stream happens to enforce
 	connLeft := rig.c.streams.inflow.sentLimit - rig.c.streams.inflow.usedLimit
 	if bad {
 		switch r.Intn(5) {
@@ -1142,12 +1157,12 @@ func smPickFinal(r *vu.Rng, rig *smRig, s *Stream) int64 {
 		if final >= 0 {
 			return final + int64(r.Range(-1, 1))
 		}
-		return s.inwin + int64(r.Range(0, 1))
+		return rig.advMSD[int64(s.id)] + int64(r.Range(0, 1))
 	default:
 		if final >= 0 {
 			return final
 		}
-		return min(s.inwin, high+int64(r.Intn(40)))
+		return min(rig.advMSD[int64(s.id)], high+int64(r.Intn(40)))
 	}
 }
 
